@@ -472,7 +472,7 @@ func TestVerif_C29(t *testing.T) {
 		units := c29Units()
 		r.Rule("callee = every sequence of <=K units from the effectful alphabet (SSTORE clear/modify/set, SLOAD, TSTORE, LOG1, CALL with/without value to a contract / a new account / a precompile, STATICCALL, DELEGATECALL, CALLCODE, CREATE, CREATE2, BALANCE of a cold account, SELFDESTRUCT) " +
 			"+ terminator {STOP, REVERT, INVALID, stack underflow, bad jump, out of gas (MSTORE at 2^32), RETURN 1 byte}; caller A (own SSTORE with refund, LOG, warm slot, TSTORE) wraps it with {STATICCALL, CALL+value, DELEGATECALL, CALLCODE+value, CREATE+value (callee = initcode), CREATE2+value, or the callee is the outermost frame} " +
-			"with inner gas {all, 30000 (quick tier: 30000 only for callees of <=1 unit)}; per rule set (CREATE2 wrapper from Constantinople). Every frame at every depth is checked at its exit against a deep copy of the state taken at its entry. distinct = distinct (rule set, wrapper, gas, callee code)")
+			"with inner gas {all, 30000 (30000 only for callees of <=K-1 units)}; per rule set (CREATE2 wrapper from Constantinople). Every frame at every depth is checked at its exit against a deep copy of the state taken at its entry. distinct = distinct (rule set, wrapper, gas, callee code)")
 		r.Bound("forks", forks)
 		r.Bound("max_units", maxUnits)
 		r.Bound("unit_alphabet", len(units))
@@ -533,8 +533,8 @@ func TestVerif_C29(t *testing.T) {
 						if sh.wrapper == "DIRECT" && g != 0 {
 							continue
 						}
-						if g != 0 && r.Quick() && len(seq) > 1 {
-							continue // quick tier: the limited-gas variant only for callees of <=1 unit
+						if g != 0 && len(seq) > maxUnits-1 {
+							continue // the limited-gas variant only for callees of <= K-1 units
 						}
 						if target != nil && (target.Term != term || target.Gas != g || strings.Join(target.Units, ",") != strings.Join(names, ",")) {
 							continue
